@@ -850,8 +850,11 @@ R_Create(p) ==
          \* the rollback of a failed upgrade --atomic creates its record without any check of the ledger: an
          \* upgrade that started while the last revision read "failed" runs side by side with it (finding L22)
          racing == o.ret = "atomicUpgrade" /\ \E q \in Procs : q # p /\ pc[q] \notin {"idle"}
+         \* the rollback diffs against the LAST revision's manifest: when that revision never became deployed, what
+         \* the deployed revision has and the last one lacks is neither deleted nor re-applied (finding L28)
+         stale == o.origSt # "deployed" /\ \E dd \in Deployed : store[dd].man # o.curman
          o1 == [o EXCEPT !.memSt = "pending-rollback", !.created = {}, !.crs = @ \cup {o.new},
-                         !.kf = IF racing THEN @ \cup {"L22"} ELSE @]
+                         !.kf = (IF racing THEN @ \cup {"L22"} ELSE @) \cup (IF stale THEN {"L28"} ELSE {})]
          okT == EnterHooks(o1, "pre-rollback", o.new, o.newrec.hooks, "R_Apply", "R_HookFail") IN
      StoreWrite(p, "create", o.new, store[o.new].st = "none", [store EXCEPT ![o.new] = o.newrec],
                 okT, REnd(o, "err"), REnd(o, "err"))
